@@ -94,8 +94,8 @@ def del_pls_model(mpls):
 lsci.PLS.argtypes = [ctypes.POINTER(mx.MATRIX),
                      ctypes.POINTER(mx.MATRIX),
                      ctypes.c_size_t,
-                     ctypes.c_size_t,
-                     ctypes.c_size_t,
+                     ctypes.c_int,
+                     ctypes.c_int,
                      ctypes.POINTER(PLSMODEL),
                      ctypes.POINTER(ctypes.c_int)]
 lsci.PLS.restype = None
